@@ -29,7 +29,8 @@ THEOREMS = ['C17_steps_bounded', 'C17_limit_premature_steps', 'C17_limit_prematu
             'C17_premature_no_verdict', 'C17_big_limit_noop', 'C17_nonpositive_limit_unlimited',
             'C17_timeout_finishes', 'C17_finished_idempotent', 'C17_setters_locked',
             'C17_no_argument_no_verdict', 'C17_build_is_step_loop', 'C17_build_total',
-            'C17_verdict_needs_trunk_refuted', 'C17_finished_locked_refuted']
+            'C17_verdict_needs_trunk_refuted', 'C17_finished_locked_refuted',
+            'C17_verdict_needs_trunk_if_flag', 'C17_finished_locks_setters_if_flag']
 
 QUICK_LOGICS = ['CPL', 'CFOL', 'K', 'FDE', 'S4', 'K3', 'D', 'LP']
 MORE_LOGICS = ['T', 'S5', 'KFDE', 'K3W', 'K3WQ', 'L3', 'G3', 'GO', 'MH', 'NH', 'B3E', 'RM3', 'P3', 'S4FDE', 'KK3', 'TLP']
@@ -50,10 +51,13 @@ def coq_optz(x) -> str:
     return f'(Some ({int(x)})%Z)'
 
 
+FLAGS = dict(fin_lock=False, trunk_verdict=False)      # probed per run (probe_lifecycle.py)
+
+
 def coq_cfg(n, closes, nrules, opts) -> str:
     return (f'(mkCfg {n}%nat {coq_bool(closes)} {nrules}%nat {coq_bool(opts.get("auto_build_trunk", True))} '
             f'{coq_bool(opts.get("is_build_models", False))} {coq_optz(opts.get("max_steps"))} '
-            f'{coq_optz(opts.get("build_timeout"))})')
+            f'{coq_optz(opts.get("build_timeout"))} {coq_bool(FLAGS["fin_lock"])} {coq_bool(FLAGS["trunk_verdict"])})')
 
 
 def model_op(op, tr) -> str:
@@ -266,6 +270,14 @@ def run(args) -> int:
                    len(chk.assumptions) == len(THEOREMS) and all(a == 'Closed under the global context' for a in chk.assumptions))
     meta = probe_json('probe_witness.py', ['--meta'])
     meta['logic_names'] = {L['name'] for L in meta['logics']}
+    fl = probe_json('probe_lifecycle.py', stdin=json.dumps(dict(cases=[])))['flags']
+    chk.obligation('behaviour flags of the setters / verdict properties could be probed', 'error' not in fl)
+    if 'error' in fl:
+        chk.violation('lifecycle.flags-probe', f'probing the life-cycle behaviour flags failed: {fl["error"]}',
+                      dict(kind='flags', error=fl['error']), found_input=False)
+        return chk.finish()
+    FLAGS.update(fin_lock=bool(fl['fin_lock']), trunk_verdict=bool(fl['trunk_verdict']))
+    chk.notes['probed_behaviour_flags'] = dict(FLAGS)
     cases = make_cases(args, rng, meta)
     recs = run_probe_parallel(cases)
     exprs, idx = [], []
@@ -325,13 +337,13 @@ def run(args) -> int:
     chk.trusted += ['tools/c17.py: translation of operations, options and observations between the two sides',
                     'tools/probe_lifecycle.py: the substituted build timer (a StopWatch subclass that adds a scripted offset and logs every reading)']
     chk.notes['explanation'] = (
-        'obligations: Print Assumptions of the 14 theorems; the model agrees with the real Tableau after every call of every '
+        'obligations: Print Assumptions of the 16 theorems; the model agrees with the real Tableau after every call of every '
         'generated sequence. The theorems hold for ALL operation sequences, proof lengths, limits and clock readings of the model.')
     chk.notes['modelled_not_verified'] = (
         'the proof search is a counter (c_n applications available once the trunk is built): that the real search is '
         'deterministic given the argument is assumed (node-hash counter reset per tableau) and re-measured per case; branches '
         'added by hand, malformed arguments, tree/stats/model contents are not modelled')
-    chk.notes['observations_outside_the_property_text'] = [
+    chk.notes['observations_outside_the_property_text'] = [] if (FLAGS['fin_lock'] and FLAGS['trunk_verdict']) else [
         "Tableau(None, 'b:a').build() (argument, no logic) and Tableau('CPL', 'b:a', auto_build_trunk=False).build() report "
         "valid=True without a trunk (C17_verdict_needs_trunk_refuted)",
         "t = Tableau('CPL'); t.build(); t.argument = 'a:a' is accepted on the finished tableau, builds a trunk and reports "
@@ -352,7 +364,9 @@ def replay(path: str) -> int:
         import argparse
         return run(argparse.Namespace(pid='C17', tier=rep.get('tier', 'quick'), seed=rep.get('seed', 0), replay=None))
     case = dict(logic=rep['logic'], arg=rep['argument'], opts=rep['opts'], ops=rep['ops'])
-    rec = probe_json('probe_lifecycle.py', stdin=json.dumps(dict(cases=[case])))['cases'][0]
+    out = probe_json('probe_lifecycle.py', stdin=json.dumps(dict(cases=[case])))
+    FLAGS.update(fin_lock=bool(out['flags'].get('fin_lock')), trunk_verdict=bool(out['flags'].get('trunk_verdict')))
+    rec = out['cases'][0]
     if rec['measure_error'] or len(rec['trace']) != len(case['ops']):
         print(f'replay: could not run the case: {rec.get("measure_error")}')
         print(f'VIOLATION property=C17 replay={path}')
